@@ -35,6 +35,10 @@ def run(ctx):
         prog, kind = proggen.gen_program(rnd, 3, 16, faults=rnd.random() < 0.2)
         pcases.append(Case(prog, tag="passes-" + kind))
     asmcheck.run_pass_traces(ctx, "pass-traces", pcases)
+    # ... and the step predicates themselves: satisfiable by a machine, and together sufficient for the end-to-end statement
+    cfg = "MC_AsmPasses" if thorough else "MC_AsmPasses3"
+    r = tlc.check_model("MC_AsmPasses", cfg, workers=8, heap="4g", extra=["-coverage", "1"])
+    ctx.add_model(cfg, r, {"invariants": ["StepsOK", "EndToEnd", "Perturbed"], "properties": ["SizeMonotone"]})
     # accepted free text: single-line mutations of valid programs (data directives included), judged with "raw" statements
     from harness.props import c13
     corpus = [c13.README] + [Case(proggen.gen_program(rnd, 3, 14, faults=False)[0]).lines for _ in range(300)]
